@@ -153,6 +153,7 @@ func c17Spaces(c *fw.Ctx) {
 	c17FixedKeySpace(c)
 	c17FreshKeySpace(c)
 	c17KeyShapeSpace(c)
+	c17SiblingKeySpace(c)
 	c17ValiditySpace(c)
 }
 
@@ -879,6 +880,65 @@ func c17KeyShapeSpace(c *fw.Ctx) {
 							r.Count("shape seen: "+sh, 1)
 						} else {
 							r.Count("shape not seen within 600000 keys: "+sh, 1)
+						}
+					}
+				})
+			}
+		})
+}
+
+// c17SiblingKeySpace: for every fixed RSA key K a sibling K' with the same owner, flags, algorithm and key tag but
+// another modulus (one octet +1, another octet of the same parity −1: the appendix-B sum is unchanged). Key tags are
+// hints, not identities: whatever is remembered about "the key with this name, algorithm and tag" may not leak
+// from one of the two into verification with the other, in either order.
+func c17SiblingKeySpace(c *fw.Ctx) {
+	var rsaKeys []int
+	for i, kn := range c10KeyNames {
+		if kn.bits > 0 && kn.bits <= 2048 {
+			rsaKeys = append(rsaKeys, i)
+		}
+	}
+	c.Space("same-tag-siblings", fmt.Sprintf("%d fixed RSA keys, each with a sibling DNSKEY of the same owner, flags, algorithm and key tag but another modulus: a signature by the key verifies under the key and not under the sibling, for every order of 4 Verify calls over {key, sibling} (what was verified before does not matter); non-trivial: all", len(rsaKeys)), true,
+		func(emit func(func(*fw.R))) {
+			for _, ki := range rsaKeys {
+				ki := ki
+				emit(func(r *fw.R) {
+					r.Nontrivial()
+					k := c10Keys()[ki]
+					raw := c17MustB64(k.DNSKEY.PublicKey)
+					sib := append([]byte(nil), raw...)
+					// two octets of the modulus at even distance, away from its ends
+					i, j := len(sib)-40, len(sib)-20
+					if sib[i] == 0xff || sib[j] == 0 {
+						i, j = j, i
+					}
+					sib[i]++
+					sib[j]--
+					sk := dns.Copy(k.DNSKEY).(*dns.DNSKEY)
+					sk.PublicKey = base64.StdEncoding.EncodeToString(sib)
+					if sk.KeyTag() != k.DNSKEY.KeyTag() {
+						panic("harness: sibling key has another tag")
+					}
+					rrset := c17TestRRset()
+					sig := &dns.RRSIG{KeyTag: k.DNSKEY.KeyTag(), SignerName: k.DNSKEY.Hdr.Name, Algorithm: k.DNSKEY.Algorithm, Inception: 1700000000, Expiration: 1900000000}
+					if err := sig.Sign(k.Priv, rrset); err != nil {
+						r.Fail("siblings/sign-error", "%v", err)
+						return
+					}
+					for seq := 0; seq < 16; seq++ {
+						var trace []string
+						for step := 0; step < 4; step++ {
+							useSib := (seq>>step)&1 == 1
+							key := k.DNSKEY
+							if useSib {
+								key = sk
+							}
+							err := sig.Verify(key, rrset)
+							trace = append(trace, fmt.Sprintf("%s → %v", map[bool]string{false: "key", true: "sibling"}[useSib], err))
+							if (err == nil) == useSib {
+								r.Fail("siblings/verdict", "RSA key %s and its same-tag sibling (tag %d): Verify calls in the order %v — step %d is wrong (a signature by the key verifies under the key only)", k.Name, sig.KeyTag, trace, step+1)
+								break
+							}
 						}
 					}
 				})
